@@ -209,7 +209,7 @@ partial def parseVal : List String → Val × List String
         let (xs, rest'') := parseVals [] rest'
         (.anys xs, rest'')
       | _ => (.nil, [])
-    else if c == 'O' then (.opv (parseOp body), rest)
+    else if c == 'O' then ((if body == "-" then .nil else .opv (parseOp body)), rest)   -- `O-` is the nil Operator: an untyped nil
     else if c == 'i' then (.leaf (.int (toInt body)), rest)
     else if c == 's' then (.leaf (.str (unhx body)), rest)
     else if c == 'b' then (.leaf (.bool (body == "1")), rest)
